@@ -291,6 +291,27 @@ def prefix_events(rng, kind, stride=1, overwrite=False):
             events.append([off, ld, "loaded_equal" if same else "loaded_different"])
             del new
     os.unlink(p2)
+    # the layout a crashed "write to a temporary name, then rename" leaves behind: the truncated file sits
+    # next to a complete one with the same stem and another suffix
+    import shutil
+    import tempfile
+    d = tempfile.mkdtemp(dir=workdir())
+    stem = os.path.join(d, "sketch")
+    with open(stem + ".npz", "wb") as f:
+        f.write(data)
+    for suffix in (".part", ".tmp", ".npz.part"):
+        for off in offsets[::41] + [len(data) - 1]:
+            with open(stem + suffix, "wb") as f:
+                f.write(data[:off])
+            for ld in loaders:
+                try:
+                    new = LOADERS[ld](stem + suffix)
+                except Exception:
+                    events.append([off, ld, "exception"])
+                    continue
+                events.append([off, ld, "loaded_equal" if compat.digest(new) == want_state else "loaded_different"])
+                del new
+    shutil.rmtree(d, ignore_errors=True)
     return {"cls": kind, "regions": regions, "total": len(data), "events": events}
 
 
